@@ -377,7 +377,7 @@ fn gen_case(rng: &mut Rng, maxn: usize, idx: usize) -> Case {
         0 => rng.below(3),
         1 => rng.range(1, 4),
         // large node counts (not for the entry points that build a graph in memory)
-        2 if !graph_entry => [1usize << 20, 1_000_000_000_007, (1usize << 40) + 1, 97][rng.below(4)] + rng.below(5),
+        2 if !graph_entry => [1usize << 20, 1_000_000_000_007, (1usize << 40) + 1, 97, (1usize << 57) + 5, 1usize << 60][rng.below(6)] + rng.below(5),
         _ => rng.range(1, maxn.max(1)),
     };
     let p = match rng.below(6) { 0 => 1, 1 => rng.range(1, 32), 2 => n + rng.range(1, 3), _ => rng.range(1, 8) }.min(32).max(1);
